@@ -10,6 +10,7 @@ insertion carries no index (`OpWF`); running the real code at the excluded point
 theorems now hold for every operation, `snapshot_inorder_index` keeps the old behaviour as a witness.
 -/
 import CssVerif.Proofs.Sheet
+import CssVerif.Proofs.SheetReparse
 namespace CssVerif.C07
 open CssVerif CssVerif.Sheet
 
@@ -101,5 +102,142 @@ example : (step true [⟨.comment, 0, 0, []⟩, ⟨.import, 0, 0, []⟩]
 /-! non-vacuity: a non-trivial reachable valid sheet -/
 example : Valid [⟨.charset, 1, 0, []⟩, ⟨.comment, 0, 0, []⟩, ⟨.import, 0, 0, []⟩, ⟨.namespace, 1, 1, []⟩,
     ⟨.style, 0, 0, [1]⟩, ⟨.unknown, 0, 0, []⟩, ⟨.media, 0, 0, []⟩] := by decide
+
+/-! ### re-parse of sheets with @namespace (and @variables) rules
+
+`NsDistinct s`: no two @namespace rules of `s` have the same prefix and no two have the same URI.  It is the
+state `_cleanNamespaces` establishes: it holds for the empty sheet, after every operation (whatever the
+operation, accepted or refused, and without assuming `Valid`) and after every parse; on such a sheet
+every @namespace rule is effective and `_cleanNamespaces` does nothing.  A valid `NsDistinct` list goes through
+the parse-time ordering machine unchanged — provided its @variables rules stand where the parser takes them
+(`VarOrd`: no @media/@page/style/@font-face rule in front of an @variables rule, no @import/@namespace behind
+it).  `Valid` says nothing about @variables, and `VarOrd` is *not* an invariant of the editing operations
+(`variables_reachable_counterexample`), so the corollary for reachable sheets keeps it as a hypothesis on the
+final sheet; it holds in particular for histories that never bring in an @variables rule. -/
+
+theorem nsdistinct_init : NsDistinct [] := nsdistinct_nil
+
+/-- every operation (all six, accepted or refused) keeps the @namespace rules clean -/
+theorem nsdistinct_step (s : Sheet) (hc : NsDistinct s) (op : Op) : NsDistinct (step true s op).1 :=
+  step_nsdistinct s hc op
+
+/-- every sheet reachable from the empty sheet by any finite history is clean -/
+theorem reachable_nsdistinct (ops : List Op) :
+    NsDistinct (ops.foldl (fun s op => (step true s op).1) []) := reachable_nsdistinct' ops
+
+/-- whatever text is parsed or assigned, the resulting rule list is clean -/
+theorem parse_nsdistinct (rs : List Rule) : NsDistinct (parseSheet true rs) := parseSheet_nsdistinct rs
+
+/-- on a clean sheet every @namespace rule is effective and `_cleanNamespaces` changes nothing -/
+theorem nsdistinct_effective_all (s : Sheet) (hc : NsDistinct s) :
+    (∀ r ∈ s, r.kind = .namespace → dictGet (view s) r.p = some r.u) ∧ cleanNamespaces s = (s, none) :=
+  ⟨fun _ hr hk => RV.dictGet_of_mem_rp _ _ _ (RV.view_ok_rp s).1 (nsdistinct_effective hc hr hk), cleanNamespaces_fix hc⟩
+
+/-- **re-parse**: a valid, clean list whose @variables rules are in parser order goes through the parser's
+ordering machine unchanged -/
+theorem reparse_same (s : Sheet) (hv : Valid s) (hc : NsDistinct s) (ho : VarOrd s) : parseSheet true s = s :=
+  (reparse_same_full s hv hc ho).1
+
+/-- … and no statement is refused (so `cssText = …` with a raising log accepts it too) -/
+theorem reparse_nothing_refused (s : Sheet) (hv : Valid s) (hc : NsDistinct s) (ho : VarOrd s) (s0 : Sheet) :
+    assignSheet true s0 s = (s, .none) := by
+  have h := reparse_same_full s hv hc ho
+  have h1 : parseSheet true s = s := h.1
+  unfold assignSheet
+  unfold parseSheet at h1
+  simp only [h.2, if_true, h1]
+
+/-- the form asked for: no @variables rule in the list -/
+theorem reparse_same_novariables (s : Sheet) (hv : Valid s) (hc : NsDistinct s) (hn : noVariables s) :
+    parseSheet true s = s := reparse_same s hv hc (varOrd_of_noVariables hn)
+
+/-- `reparse_same_partial` is the special case without @namespace rules -/
+example (s : Sheet) (hv : Valid s) (hp : plain s) : parseSheet true s = s :=
+  reparse_same_novariables s hv
+    (by
+      have : nsRules s = [] := by
+        apply List.filter_eq_nil_iff.mpr
+        intro x hx
+        simpa [isKind] using (hp x hx).1
+      unfold NsDistinct; rw [this]; exact List.Pairwise.nil)
+    (fun x hx => (hp x hx).2)
+
+/-- the hypothesis on @variables is needed: `Valid` and `NsDistinct` do not constrain them, the parser does
+(an @variables rule behind a style rule is refused; behind an @variables rule @namespace and @import are) -/
+theorem reparse_variables_counterexamples :
+    (Valid [⟨.style, 0, 0, []⟩, ⟨.variables, 0, 0, []⟩] ∧ NsDistinct [⟨.style, 0, 0, []⟩, ⟨.variables, 0, 0, []⟩] ∧
+      parseSheet true [⟨.style, 0, 0, []⟩, ⟨.variables, 0, 0, []⟩] = [⟨.style, 0, 0, []⟩]) ∧
+    (Valid [⟨.variables, 0, 0, []⟩, ⟨.namespace, 1, 1, []⟩] ∧
+      NsDistinct [⟨.variables, 0, 0, []⟩, ⟨.namespace, 1, 1, []⟩] ∧
+      parseSheet true [⟨.variables, 0, 0, []⟩, ⟨.namespace, 1, 1, []⟩] = [⟨.variables, 0, 0, []⟩]) ∧
+    (Valid [⟨.variables, 0, 0, []⟩, ⟨.import, 0, 0, []⟩] ∧
+      parseSheet true [⟨.variables, 0, 0, []⟩, ⟨.import, 0, 0, []⟩] = [⟨.variables, 0, 0, []⟩]) := by decide
+
+/-- the hypothesis `NsDistinct` is needed: a repeated prefix is merged, a repeated URI is cleaned away -/
+theorem reparse_nsdistinct_counterexamples :
+    (Valid [⟨.namespace, 1, 1, []⟩, ⟨.namespace, 1, 2, []⟩] ∧
+      parseSheet true [⟨.namespace, 1, 1, []⟩, ⟨.namespace, 1, 2, []⟩] = [⟨.namespace, 1, 2, []⟩]) ∧
+    (Valid [⟨.namespace, 1, 1, []⟩, ⟨.namespace, 2, 1, []⟩] ∧
+      parseSheet true [⟨.namespace, 1, 1, []⟩, ⟨.namespace, 2, 1, []⟩] = [⟨.namespace, 2, 1, []⟩]) ∧
+    (Valid [⟨.namespace, 1, 1, []⟩, ⟨.namespace, 1, 1, []⟩] ∧
+      parseSheet true [⟨.namespace, 1, 1, []⟩, ⟨.namespace, 1, 1, []⟩] = [⟨.namespace, 1, 1, []⟩]) := by decide
+
+/-- **every reachable sheet re-parses to itself** when its @variables rules (if any) are in parser order -/
+theorem reachable_reparse_all (ops : List Op)
+    (ho : VarOrd (ops.foldl (fun s op => (step true s op).1) [])) :
+    parseSheet true (ops.foldl (fun s op => (step true s op).1) []) =
+      ops.foldl (fun s op => (step true s op).1) [] :=
+  reparse_same _ (reachable_valid ops) (reachable_nsdistinct ops) ho
+
+/-- in particular for every history that never inserts or assigns an @variables rule -/
+theorem reachable_reparse_novariables (ops : List Op) (ho : ∀ op ∈ ops, OpNoVar op) :
+    parseSheet true (ops.foldl (fun s op => (step true s op).1) []) =
+      ops.foldl (fun s op => (step true s op).1) [] :=
+  reachable_reparse_all ops (varOrd_of_noVariables (reachable_noVariables ops ho))
+
+/-- without that hypothesis the corollary is false of the modelled code: `add('@variables …')` and then
+`insertRule(<style rule>, 0)` is accepted (the non-@variables branch of insertRule only looks for
+@charset/@import/@namespace behind the index), the list is valid and clean, and its re-parse loses the
+@variables rule (the parser refuses @variables after a style rule) -/
+theorem variables_reachable_counterexample :
+    [Op.insert ⟨.variables, 0, 0, []⟩ none true, Op.insert ⟨.style, 0, 0, []⟩ (some 0) false].foldl
+        (fun s op => (step true s op).1) [] = [⟨.style, 0, 0, []⟩, ⟨.variables, 0, 0, []⟩] ∧
+    parseSheet true [⟨.style, 0, 0, []⟩, ⟨.variables, 0, 0, []⟩] ≠ [⟨.style, 0, 0, []⟩, ⟨.variables, 0, 0, []⟩] := by
+  decide
+
+/-! non-vacuity: a sheet with a charset, a comment, an import, two namespace rules, an @variables rule,
+style rules using both URIs; it is reachable, satisfies the hypotheses and re-parses to itself -/
+def demoSheet : Sheet := [⟨.charset, 7, 0, []⟩, ⟨.comment, 0, 0, []⟩, ⟨.import, 0, 0, []⟩,
+  ⟨.namespace, 0, 1, []⟩, ⟨.namespace, 2, 3, []⟩, ⟨.variables, 0, 0, []⟩, ⟨.style, 0, 0, [1, 3]⟩,
+  ⟨.unknown, 0, 0, []⟩, ⟨.media, 0, 0, [3]⟩, ⟨.style, 0, 0, []⟩]
+
+example : Valid demoSheet ∧ NsDistinct demoSheet ∧ VarOrd demoSheet := by decide
+example : parseSheet true demoSheet = demoSheet := by decide
+example : view demoSheet = [(2, 3), (0, 1)] := by decide
+
+/-- a history with all six operations that ends in a sheet with two namespace rules, an import, a charset and
+style rules using the URIs: `cssText` assignments (the first with two prefixes for one URI), `add`,
+`namespaces[p] = u`, an `insertRule` at an index of a second prefix for a declared URI (cleaned away again),
+a refused `del namespaces[p]` (URI in use), a `deleteRule`, an `encoding` assignment -/
+def demoOps : List Op := [
+  .assign [⟨.namespace, 5, 5, []⟩, ⟨.namespace, 6, 5, []⟩, ⟨.style, 0, 0, [5]⟩],
+  .assign [⟨.import, 0, 0, []⟩, ⟨.style, 0, 0, []⟩],
+  .insert ⟨.namespace, 0, 1, []⟩ none true,
+  .nsSet 2 3,
+  .insert ⟨.namespace, 4, 1, []⟩ (some 1) false,
+  .insert ⟨.style, 0, 0, [1, 3]⟩ none true,
+  .nsDel 2,
+  .nsSet 9 9,
+  .delete 3,
+  .encoding (some 7),
+  .insert ⟨.media, 0, 0, [3]⟩ none false]
+
+example : demoOps.foldl (fun s op => (step true s op).1) [] =
+    [⟨.charset, 7, 0, []⟩, ⟨.import, 0, 0, []⟩, ⟨.namespace, 0, 1, []⟩, ⟨.namespace, 2, 3, []⟩,
+     ⟨.style, 0, 0, []⟩, ⟨.style, 0, 0, [1, 3]⟩, ⟨.media, 0, 0, [3]⟩] := by decide
+example : ∀ op ∈ demoOps, OpNoVar op := by
+  intro op hop
+  simp only [demoOps, List.mem_cons, List.not_mem_nil, or_false] at hop
+  rcases hop with h | h | h | h | h | h | h | h | h | h | h <;> subst h <;> simp [OpNoVar]
 
 end CssVerif.C07
